@@ -2,6 +2,8 @@ import Pycoin.Model.Sign
 import Pycoin.Proofs.SignDer
 import Pycoin.Proofs.SignEval
 import Pycoin.Proofs.SignWrap
+import Pycoin.Proofs.SignState
+import Pycoin.Proofs.SignParse
 import Pycoin.Proofs.SignLink
 import Pycoin.Proofs.SignOrder
 import Pycoin.Proofs.SignKeychain
@@ -926,6 +928,169 @@ theorem C05_p2pk_end_to_end (coin : Coin) (tx : Tx) (us : List (Option TxOut)) (
     · unfold checkPubKeyEncoding; simp [hk1]
     · rw [hfd sig hcan]; exact hchk
 
+
+/-! ## m-of-n with ECDSA and the digest instantiated: end to end, and pass by pass -/
+
+/-- the listed keys `K` (= `sec_list`, i.e. the keys of the script last first) and the secrets that control them -/
+structure HonestKeys (K : List Bytes) (d x y : Nat → Int) (comp : Nat → Bool) : Prop where
+  pub : ∀ i, i < K.length → mulG k1 0 (d i) = .ok (some (x i, y i))
+  sec : ∀ i k, K[i]? = some k → publicPairToSec (x i) (y i) (comp i) = .ok k
+
+/-- `sg i` is what the signer emits with the secret of key `i` for digest `z` and hash type `ht` (RFC 6979: there is one) -/
+def SignsWith (K : List Bytes) (d : Nat → Int) (z : Int) (ht : Nat) (sg : Nat → Bytes) : Prop :=
+  ∀ i, i < K.length → ∃ r s, secp256k1Crypto.sign (d i) z = .ok (r, s) ∧
+    binarySignature r (lowS secp256k1Crypto.order s) ht = .ok (sg i)
+
+/-- what a lookup holds for a listed key is that key's secret -/
+def LookupFor (K : List Bytes) (d : Nat → Int) (lookup : Lookup) : Prop :=
+  ∀ i k e, K[i]? = some k → lookup (Hash.hash160 k) = some e → e.secret = d i
+
+theorem sv_witness (w : Wrap) : (w.sv == SigVersion.witnessV0) = w.witness := by cases w <;> rfl
+
+theorem getElem?_of_lt {K : List Bytes} {i : Nat} (h : i < K.length) : ∃ k, K[i]? = some k :=
+  ⟨K[i], List.getElem?_eq_getElem h⟩
+
+theorem lt_of_getElem? {K : List Bytes} {i : Nat} {k : Bytes} (h : K[i]? = some k) : i < K.length :=
+  (List.getElem?_eq_some_iff.mp h).1
+
+/-- C01, C10 and the canonical-signature theorem for one listed key -/
+theorem own_facts {K : List Bytes} {d x y : Nat → Int} {comp : Nat → Bool} {sg : Nat → Bytes} {z : Int} {ht : Nat}
+    (HK : HonestKeys K d x y comp) (hsg : SignsWith K d z ht sg) (hht : ht ≤ 255) {i : Nat} {k : Bytes}
+    (hk : K[i]? = some k) :
+    Canonical ht (sg i) ∧ secp256k1Crypto.secToPair k = some (some (x i, y i)) ∧
+    ∃ r s : Int, 1 ≤ r ∧ r < secp256k1N ∧ 1 ≤ lowS secp256k1N s ∧ lowS secp256k1N s < secp256k1N ∧
+      secp256k1Crypto.sign (d i) z = .ok (r, s) ∧ binarySignature r (lowS secp256k1N s) ht = .ok (sg i) ∧
+      secp256k1Crypto.verify (some (x i, y i)) z r (lowS secp256k1N s) = .ok true ∧
+      (∀ coin tx us idx sv code, modelSighash coin tx us idx (sv == .witnessV0) code ht = some z →
+        realChk coin tx us idx (sg i) k code sv = true) := by
+  have hi := lt_of_getElem? hk
+  obtain ⟨r, s, hsign, hbin⟩ := hsg i hi
+  obtain ⟨a1, a2, a3, a4, hver⟩ := sign_facts hsign (HK.pub i hi)
+  obtain ⟨sig, hsig, hcan, _⟩ := C05_sig_canonical r s ht a1 a2 a3 a4 hht
+  obtain ⟨l1, l2, _⟩ := lowS_range a3 a4
+  have hdec := key_decodes (HK.pub i hi) (HK.sec i k hk)
+  rw [k1_order] at hbin hver
+  rw [hbin] at hsig; cases hsig
+  refine ⟨hcan, hdec, r, s, a1, a2, l1, l2, hsign, hbin, hver, ?_⟩
+  intro coin tx us idx sv code hz
+  exact C05_ecdsa_chk_accepts secp256k1Crypto k1_order _ sv code k (sg i) (some (x i, y i)) z r s ht hht a1 a2 a3 a4 hz hdec
+    (by rw [k1_order]; exact hver) (by rw [k1_order]; exact hbin)
+
+theorem lookupHonest_of {K : List Bytes} {d x y : Nat → Int} {comp : Nat → Bool} {sg : Nat → Bytes} {z : Int} {ht : Nat}
+    (HK : HonestKeys K d x y comp) (hsg : SignsWith K d z ht sg) {lookup : Lookup} (hl : LookupFor K d lookup) :
+    LookupHonest secp256k1Crypto lookup ht z sg (enumFrom 0 K).reverse := by
+  intro p hp
+  obtain ⟨_, hK⟩ := enumFrom_get 0 K p (List.mem_reverse.mp hp)
+  simp only [Nat.sub_zero] at hK
+  have hi := lt_of_getElem? hK
+  constructor
+  · intro e he
+    obtain ⟨r, s, hsign, hbin⟩ := hsg p.1 hi
+    exact ⟨r, s, by rw [hl p.1 p.2 e hK he]; exact hsign, hbin⟩
+  · intro _
+    rw [key_decodes (HK.pub p.1 hi) (HK.sec p.1 p.2 hK)]; rfl
+
+theorem sizesOk_of {keys : List Bytes} {d x y : Nat → Int} {comp : Nat → Bool} {sg : Nat → Bytes} {z : Int} {ht : Nat}
+    (HK : HonestKeys keys.reverse d x y comp) (hsg : SignsWith keys.reverse d z ht sg) (hht : ht ≤ 255) {ph : Bytes}
+    (hph : 2 ≤ ph.length ∧ ph.length ≤ 75) : SizesOk keys sg ph := by
+  refine ⟨?_, ?_, hph⟩
+  · intro k hk
+    obtain ⟨i, hi⟩ := List.mem_iff_getElem?.mp (List.mem_reverse.mpr hk)
+    obtain ⟨_, _, h3⟩ := publicPairToSec_shape (HK.sec i k hi)
+    omega
+  · intro i hi
+    obtain ⟨k, hk⟩ := getElem?_of_lt hi
+    obtain ⟨hcan, _⟩ := own_facts HK hsg hht hk
+    obtain ⟨h9, h73⟩ := valid_sig_length hcan.1
+    omega
+
+theorem keysEncoding_of {keys : List Bytes} {d x y : Nat → Int} {comp : Nat → Bool}
+    (HK : HonestKeys keys.reverse d x y comp) (w : Wrap) (flags : Flags) (hcomp : w.witness = true → ∀ i, comp i = true) :
+    ∀ k ∈ keys, checkPubKeyEncoding k flags w.sv = none := by
+  intro k hk
+  obtain ⟨i, hi⟩ := List.mem_iff_getElem?.mp (List.mem_reverse.mpr hk)
+  obtain ⟨h1, h2, _⟩ := publicPairToSec_shape (HK.sec i k hi)
+  unfold checkPubKeyEncoding
+  cases hw : w.witness with
+  | false =>
+    have : w.sv = .base := by unfold Wrap.sv; rw [hw]; rfl
+    simp [h1, this]
+  | true => simp [h1, h2 (hcomp hw i)]
+
+/-- the digest `CheckSig` sees for the signature variables `sigs` is the digest that was signed -/
+def CodeIs (w : Wrap) (ms : Bytes) (flags : Flags) (txc : TxCtx) (sigs : List Bytes) : Prop :=
+  scriptCodeFor ⟨ms, flags, w.sv, txc⟩ ⟨[], [], [], 0, 0⟩ sigs = ms
+
+theorem codeIs_witness (w : Wrap) (ms : Bytes) (flags : Flags) (txc : TxCtx) (sigs : List Bytes) (hw : w.witness = true) :
+    CodeIs w ms flags txc sigs := by
+  unfold CodeIs
+  have : w.sv = .witnessV0 := by unfold Wrap.sv; rw [hw]; rfl
+  rw [this]; exact scriptCodeFor_witness' ms flags txc sigs
+
+/-- **m-of-n multisig, end to end, the four wrappers** (bare, P2SH, P2WSH, P2SH-P2WSH; every `1 ≤ m ≤ n ≤ 20`).  For listed keys
+`d i • G`, a lookup that holds the secrets of at least `m` of them (and possibly of others), the digest of C04's model and RFC
+6979 signing succeeding for it: the model's `solveBase` on the fresh input returns the dummy and `m` signatures — those of the
+first `m` listed keys the lookup holds, in script order, no placeholder — and the consensus specification accepts the spend
+built from them as `Solver.solve` builds it (`Wrap.scriptSig`, `Wrap.wit`), with `CheckSig` = ECDSA-verify of that very digest.
+`hcode`: as for P2PKH, Core deletes the pushed signatures from a legacy script code before hashing; the signer hashes the script
+as it stands (for witness scripts this holds by definition: `codeIs_witness`). -/
+theorem C05_multisig_end_to_end (w : Wrap) (coin : Coin) (tx : Tx) (us : List (Option TxOut)) (idx : Nat) (lookup : Lookup)
+    (ph : Bytes) (m : Nat) (keys : List Bytes) (d x y : Nat → Int) (comp : Nat → Bool) (sg : Nat → Bytes) (z : Int) (ht : Nat)
+    (flags : Flags) (txc : TxCtx)
+    (hm1 : 1 ≤ m) (hmn : m ≤ keys.length) (hn : keys.length ≤ 20)
+    (HK : HonestKeys keys.reverse d x y comp)
+    (hz : modelSighash coin tx us idx w.witness (multisigScriptN m keys) ht = some z)
+    (hsg : SignsWith keys.reverse d z ht sg) (hl : LookupFor keys.reverse d lookup)
+    (henough : m ≤ card keys.reverse.length (inTOf lookup keys.reverse))
+    (hht : ht ≤ 255) (hstd : standardHashType ht ∨ flags.strictenc = false)
+    (hcomp : w.witness = true → ∀ i, comp i = true)
+    (ok : w.Ok (multisigScriptN m keys) flags) (hph : 2 ≤ ph.length ∧ ph.length ≤ 75)
+    (hcode : ∀ sigs, (∀ s ∈ sigs, Canonical ht s) → CodeIs w (multisigScriptN m keys) flags txc sigs) :
+    ∃ sgn : Nat → Bool, card keys.reverse.length sgn = m ∧ (∀ i, sgn i = true → inTOf lookup keys.reverse i = true) ∧
+      solveBase secp256k1Crypto lookup (modelSighash coin tx us idx w.witness (multisigScriptN m keys)) [] ht (some ph)
+        (.multisig m keys) = .ok ((stateSolved keys.reverse.length m sg ph sgn).map some) ∧
+      verifyScript (realChk coin tx us idx)
+        (w.scriptSig (multisigScriptN m keys) (stateSolved keys.reverse.length m sg ph sgn))
+        (w.spk (multisigScriptN m keys))
+        (w.wit (multisigScriptN m keys) (stateSolved keys.reverse.length m sg ph sgn)) flags txc = none := by
+  let sgn := passSet keys.reverse.length m (fun _ => false) (inTOf lookup keys.reverse)
+  have hcard : card keys.reverse.length sgn = m := by
+    have h1 := pass_card keys.reverse.length m (fun _ => false) (inTOf lookup keys.reverse)
+    have h2 := card_union keys.reverse.length (fun _ => false) (inTOf lookup keys.reverse)
+    have h3 : card keys.reverse.length (fun i => false || inTOf lookup keys.reverse i) =
+        card keys.reverse.length (inTOf lookup keys.reverse) := card_congr (fun i _ => by simp)
+    have h0 : card keys.reverse.length (fun _ => false) = 0 := by rw [card_eq_countP]; simp
+    show card keys.reverse.length (passSet keys.reverse.length m (fun _ => false) (inTOf lookup keys.reverse)) = m
+    omega
+  have hsub : ∀ i, sgn i = true → inTOf lookup keys.reverse i = true := by
+    intro i hi
+    simp only [sgn, passSet, Bool.false_or, List.contains_iff_mem] at hi
+    exact (mem_picks hi).2.2
+  refine ⟨sgn, hcard, hsub, ?_, ?_⟩
+  · rw [solveBase_multisig_fresh keys hz lookup m ph (lookupHonest_of HK hsg hl), stateSolved_map_some]
+  · have hsigs := stateSigs_full keys.reverse.length m sg ph sgn hcard
+    have hcan : ∀ s ∈ stateSigs keys.reverse.length m sg ph sgn, Canonical ht s := by
+      intro s hs
+      rw [hsigs] at hs
+      obtain ⟨i, hi, rfl⟩ := List.mem_map.mp hs
+      obtain ⟨k, hk⟩ := getElem?_of_lt (mem_signedList.mp hi).1
+      exact (own_facts HK hsg hht hk).1
+    apply state_accept (realChk coin tx us idx) w m keys sg ph sgn flags txc ok hm1 hmn hn (sizesOk_of HK hsg hht hph) hcard
+    · intro i hi
+      have hlt : i < keys.reverse.length := by
+        have := hsub i hi
+        unfold inTOf at this
+        cases hk : keys.reverse[i]? with
+        | none => rw [hk] at this; cases this
+        | some k => exact lt_of_getElem? hk
+      obtain ⟨k, hk⟩ := getElem?_of_lt hlt
+      exact C05_sig_passes_encoding_checks (own_facts HK hsg hht hk).1 flags hstd
+    · exact keysEncoding_of HK w flags hcomp
+    · intro i k hk _
+      obtain ⟨_, _, r, s, _, _, _, _, _, _, _, hchk⟩ := own_facts HK hsg hht hk
+      apply hchk
+      rw [hcode _ hcan, sv_witness]
+      exact hz
 
 section digests
 open Pycoin.Sighash
